@@ -26,7 +26,7 @@ TCase(t) == LET r == UpdateOp(m, t[1], t[2], t[3], t[4]) IN
             [key |-> t[1], val |-> t[2], p |-> DotJoin(t[3]), conds |-> SetToSeq(t[4]), post |-> r.n, c |-> r.c]
 Emit == DoEmit => PrintT(ToJson([f |-> "upd", m |-> m, ts |-> SetToSeq({TCase(t) : t \in TransE \cup TransC})]))
 Spec == GenSpec
-cScalars == {VS("x"), VS("y")}
+cScalars == {VS("x"), VS("X")}      \* (values that differ in case only: a string condition compares exactly)
 cConts == {EmptyMap, EmptyList}
 cNewVals == {VS("N")}
 cNewVals2 == {VS("N"), VM("n" :> VS("N")), VL(<<VS("N")>>)}
